@@ -659,3 +659,38 @@ pub mod verif_hooks_psdcone_step {
         (r, e)
     }
 }
+
+// ---------------------------------------------------------------------------
+// verification hooks (feature `verif-hooks`), fourth group: which of the LAPACK
+// calls of `update_scaling` succeed on (s, z).  Fresh engines and work matrices
+// are used; no cone is touched.  No behaviour is added.
+// ---------------------------------------------------------------------------
+#[cfg(feature = "verif-hooks")]
+pub mod verif_hooks_psdcone_lapack {
+    use super::*;
+
+    /// `(chol(S) ok, chol(Z) ok, svd(L2ᵀL1) ok)` for `S = mat(s)`, `Z = mat(z)`.  As in
+    /// `update_scaling`, both Cholesky factorizations are always attempted and the SVD only
+    /// when both succeeded (`None` otherwise).
+    pub fn update_scaling_lapack_ok<T: FloatT>(
+        n: usize,
+        s: &[T],
+        z: &[T],
+    ) -> (bool, bool, Option<bool>) {
+        let mut S = Matrix::<T>::zeros((n, n));
+        let mut Z = Matrix::<T>::zeros((n, n));
+        svec_to_mat(&mut S, s);
+        svec_to_mat(&mut Z, z);
+        let mut chol1 = CholeskyEngine::<T>::new(n);
+        let mut chol2 = CholeskyEngine::<T>::new(n);
+        let c1 = chol1.factor(&mut S).is_ok();
+        let c2 = chol2.factor(&mut Z).is_ok();
+        if !(c1 && c2) {
+            return (c1, c2, None);
+        }
+        let mut tmp = Matrix::<T>::zeros((n, n));
+        tmp.mul(&chol2.L.t(), &chol1.L, T::one(), T::zero());
+        let mut svd = SVDEngine::<T>::new((n, n));
+        (c1, c2, Some(svd.factor(&mut tmp).is_ok()))
+    }
+}
